@@ -22,13 +22,22 @@ void ::sqf::parser::sqf::formatter::formatter::prettify(const ::sqf::parser::sqf
     case bison::astkind::EXP8:
     case bison::astkind::EXP9:
     {
+        // Parentheses are not part of the tree: re-insert them where the operand is a binary
+        // expression that would otherwise group differently (lower level, or same level on the right).
+        auto is_binary = [](const bison::astnode& n) { return n.kind >= bison::astkind::EXP0 && n.kind <= bison::astkind::EXP9; };
+        bool left_parens = is_binary(node.children[0]) && node.children[0].kind < node.kind;
+        bool right_parens = is_binary(node.children[1]) && node.children[1].kind <= node.kind;
+        if (left_parens) { buff << "("; }
         this->prettify(node.children[0], depth, buff);
+        if (left_parens) { buff << ")"; }
         buff << " ";
         auto s = std::string(node.token.contents);
         std::transform(s.begin(), s.end(), s.begin(), [](char& c) { return (char)std::tolower((int)c); });
         buff << s;
         buff << " ";
+        if (right_parens) { buff << "("; }
         this->prettify(node.children[1], depth, buff);
+        if (right_parens) { buff << ")"; }
     }
     break;
     case bison::astkind::EXPU:
@@ -38,9 +47,13 @@ void ::sqf::parser::sqf::formatter::formatter::prettify(const ::sqf::parser::sqf
         buff << s;
         buff << " ";
 
+        // a unary operator binds tighter than any binary one: a binary operand needs parentheses
+        bool operand_is_binary = node.children[0].kind >= bison::astkind::EXP0 && node.children[0].kind <= bison::astkind::EXP9;
         if (s == "if" && node.children[0].token.contents != "!")
             buff << "(";
         else if (s == "!")
+            buff << "(";
+        else if (operand_is_binary)
             buff << "(";
 
         this->prettify(node.children[0], depth, buff);
@@ -48,6 +61,8 @@ void ::sqf::parser::sqf::formatter::formatter::prettify(const ::sqf::parser::sqf
         if (s == "if" && node.children[0].token.contents != "!")
             buff << ")";
         else if (s == "!")
+            buff << ")";
+        else if (operand_is_binary)
             buff << ")";
     }
     break;
